@@ -118,7 +118,10 @@ pub fn check_gas_rules(c: &TxCase, r: &Run) -> Vec<(String, String)> {
     // exists) belongs to the transaction, not to the execution, and is granted whatever the outcome
     let auth_refund = auth_refund(c);
     let unobserved_refund = if o.class == Class::Success { 0 } else { auth_refund };
-    if o.gas_used + o.gas_refunded + unobserved_refund < intrinsic {
+    // when the EIP-7623 floor engages, the result reports (floor, refund 0): what was spent before the
+    // refund is then not observable (and a 7702 refund can put the floor below the intrinsic gas)
+    let floor_engaged = floor > 0 && o.gas_used == floor && o.gas_refunded == 0;
+    if !floor_engaged && o.gas_used + o.gas_refunded + unobserved_refund < intrinsic {
         v.push(("gas-below-intrinsic".into(), format!("gas spent {} < intrinsic {intrinsic}", o.gas_used + o.gas_refunded)));
     }
     if o.gas_used < floor {
